@@ -40,7 +40,103 @@ func holds(li *lockInfo, in ssa.Instruction, class string) bool {
 	return false
 }
 
+// inlineCounterRead: the body of getChildNum written out at its call site.
+type inlineCounterRead struct {
+	get        *ssa.Call // am.Get(key)
+	value      ssa.Value // binary.LittleEndian.Uint32(result)
+	polarityOK bool      // the key is the internal child-number name exactly on the `internal` edge
+}
+
+func findInlineCounterRead(f *ssa.Function) *inlineCounterRead {
+	var out *inlineCounterRead
+	allInstrsNew(f, func(in ssa.Instruction) {
+		cl, m, ok := bucketInvoke(in)
+		if !ok || m != "Get" || len(cl.Call.Args) != 1 {
+			return
+		}
+		ks := backSlice(cl.Call.Args[0])
+		if !ks.hasGlobal(pkgKeystore, "internalChildNumName") || !ks.hasGlobal(pkgKeystore, "externalChildNumName") {
+			return
+		}
+		r := &inlineCounterRead{get: cl}
+		// the decoded value
+		res := resultOf(cl, 0)
+		allInstrsNew(f, func(i2 ssa.Instruction) {
+			c2, isC := i2.(*ssa.Call)
+			if !isC || !strings.HasSuffix(calleeID(c2), "littleEndian).Uint32") {
+				return
+			}
+			if res != nil && backSlice(callArgs(c2)[0]).has(res) {
+				r.value = c2
+			}
+		})
+		// polarity: the store/phi edge that selects the internal name lies behind the true edge of a test
+		// of parameter `internal`, the external name behind its false edge
+		var tests []boolTest
+		for _, p := range f.Params {
+			if p.Name() == "internal" {
+				tests = append(tests, boolTestsOf(f, p)...)
+			}
+		}
+		okIn, okEx := false, false
+		seen := map[string]bool{}
+		valueOrigins(f, cl.Call.Args[0], func(root ssa.Value) {
+			_ = root
+		})
+		// where each name is chosen: a Store into the key cell, or the predecessor block of a phi edge
+		chosenAt := func(name string) []*ssa.BasicBlock {
+			var out []*ssa.BasicBlock
+			for v := range ks.vals {
+				switch x := v.(type) {
+				case *ssa.Phi:
+					for i, e := range x.Edges {
+						if backSlice(e).hasGlobal(pkgKeystore, name) && !seen[name+fmt.Sprint(i)+x.Name()] {
+							out = append(out, x.Block().Preds[i])
+						}
+					}
+				}
+			}
+			allInstrsShallow(cl.Parent(), func(i3 ssa.Instruction) {
+				if st, isSt := i3.(*ssa.Store); isSt {
+					if u, isU := st.Val.(*ssa.UnOp); isU {
+						if g, isG := u.X.(*ssa.Global); isG && g.Name() == name && ks.has(st.Val) {
+							out = append(out, st.Block())
+						}
+					}
+				}
+			})
+			return out
+		}
+		for _, t := range tests {
+			for _, b := range chosenAt("internalChildNumName") {
+				if t.TrueSucc == b || t.TrueSucc.Dominates(b) {
+					okIn = true
+				}
+			}
+			for _, b := range chosenAt("externalChildNumName") {
+				if t.FalseSucc == b || t.FalseSucc.Dominates(b) {
+					okEx = true
+				}
+				// default-then-override: the external name chosen before the test, overridden on the true edge
+				if b.Dominates(t.If.Block()) {
+					okEx = true
+				}
+			}
+		}
+		r.polarityOK = okIn && okEx
+		if r.value != nil {
+			out = r
+		}
+	})
+	return out
+}
+
 func checkC06(c *Ctx) Meta {
+	// a key is found again under the address it was stored under: both sides serialise the key at fixed
+	// width (the C18 width rules over the keystore and hdkeychain packages as premises)
+	c.pushAlias("C18-", "C06-HD-")
+	checkC18(c)
+	c.popAlias()
 	c.Rule("C06-RMW", "in nextAddresses the counter read, the derivation, the counter advance and the key persist form one read-modify-write: a.mu held throughout, getChildNum dominates updateChildNum on the same bucket and branch polarity, the value written is the value read plus unit increments only, each persisted key is stored under the (branch, index) of the very address it belongs to", 5)
 	c.Rule("C06-ORDINAL", "the ordinal returned with a new plot key is the persisted index of that same key; a later ordinal lookup returns the index of the entry found under the address derived from the argument", 2)
 	c.Rule("C06-LOCK", "issuance and lookup run under the manager lock and inside one db.Update", 3)
@@ -65,8 +161,53 @@ func checkC06(c *Ctx) Meta {
 	if f := c.MustFn("C06-RMW", "poc/wallet/keystore", "(*AddrManager).nextAddresses"); f != nil {
 		gets := callsIn(f, pkgKeystore+".getChildNum")
 		upds := callsIn(f, pkgKeystore+".updateChildNum")
-		if len(gets) != 1 || len(upds) != 1 {
+		// the counter read written out in place (getChildNum folded into its only caller): a Get on the
+		// bucket under the child-number key chosen by `internal`, decoded with Uint32
+		var inl *inlineCounterRead
+		if len(gets) == 0 && len(upds) == 1 {
+			inl = findInlineCounterRead(f)
+		}
+		if (len(gets) != 1 && inl == nil) || len(upds) != 1 {
 			c.Bad("C06-RMW", "nextAddresses:anchor", c.Pos(f.Pos()), "reason=anchor-missing: getChildNum/updateChildNum calls")
+		} else if inl != nil {
+			u := upds[0]
+			if holds(li, inl.get, tAddrMgr+".mu") && holds(li, u, tAddrMgr+".mu") && !unlockBetween(f, inl.get, u) {
+				c.OK("C06-RMW", "nextAddresses:lock-held-across-read-and-write", c.Pos(inl.get.Pos()), "a.mu held at the counter read and at the counter write, no unlock in between")
+			} else {
+				c.Bad("C06-RMW", "nextAddresses:lock-held-across-read-and-write", c.Pos(inl.get.Pos()), "the address-manager lock is not held from the counter read to the counter write: two issuers can read the same counter")
+			}
+			if instrDominates(inl.get, u) && sameOriginValue(f, inl.get.Call.Value, u.Call.Args[0]) && inl.polarityOK && backSlice(u.Call.Args[1]).hasParam(f, "internal") {
+				c.OK("C06-RMW", "nextAddresses:read-before-write-same-counter", c.Pos(u.Pos()), "am.Get(<child-number key of `internal`>) dominates updateChildNum(am, internal, …)")
+			} else {
+				c.Bad("C06-RMW", "nextAddresses:read-before-write-same-counter", c.Pos(u.Pos()), "the counter written is not the counter that was read (different bucket or branch polarity, or written before read)")
+			}
+			sl := backSlice(u.Call.Args[2])
+			badOp := ""
+			for x := range sl.vals {
+				if bo, ok := x.(*ssa.BinOp); ok {
+					switch bo.Op {
+					case token.ADD:
+						if k, isK := bo.Y.(*ssa.Const); !isK || k.Value == nil || k.Value.ExactString() != "1" {
+							badOp = "an addition other than +1"
+						}
+					case token.SUB, token.MUL, token.QUO, token.REM, token.SHL, token.SHR, token.AND, token.OR, token.XOR:
+						badOp = "operator " + bo.Op.String()
+					}
+				}
+				if phi, ok := x.(*ssa.Phi); ok {
+					for _, e := range phi.Edges {
+						if _, isK := e.(*ssa.Const); isK {
+							badOp = "a constant restart value"
+						}
+					}
+				}
+			}
+			if sl.has(inl.value) && badOp == "" {
+				c.OK("C06-RMW", "nextAddresses:written-is-read-plus-unit-steps", c.Pos(u.Pos()), "the counter written derives from the counter read through +1 steps only")
+			} else {
+				c.Bad("C06-RMW", "nextAddresses:written-is-read-plus-unit-steps", c.Pos(u.Pos()), "the counter written is not the counter read advanced by unit steps ("+badOp+"): indices would be reused or skipped")
+			}
+			checkIndexRecording(c, f, "C06-RMW", "nextAddresses")
 		} else {
 			g, u := gets[0], upds[0]
 			// lock
@@ -555,6 +696,13 @@ func affineEqualModuloLoopStep(f *ssa.Function, e1, e2 affineExpr) bool {
 // ---------------------------------------------------------------------------------------------
 
 func checkC05(c *Ctx) Meta {
+	// unlocking a keystore completes: after its passphrase was accepted the keystore's keys are restored
+	// (the C03 lifetime rule: a successful check is followed by unlocking or by Zero()) — a keystore added
+	// while the wallet is unlocked must end up signing
+	c.Rule("C05-UNLOCK", "after a keystore accepted the passphrase it is unlocked (its private keys restored) on every path that reports success while the wallet is unlocked (the C03 derived-key rule as a premise of 'whenever the wallet is unlocked a known key signs')", 4)
+	c.pushAlias("C03-DERIVED", "C05-UNLOCK")
+	checkDerivedKeyLifetime(c)
+	c.popAlias()
 	// the transaction discipline as a premise (C12: memory is refreshed only after the commit, one
 	// transaction per operation, no swallowed error): a key stays signable while its keystore is in the store and the wallet is unlocked: an operation that drops keys from memory before its transaction committed loses them on a failed commit
 	c.pushAlias("C12-", "C05-TX-")
